@@ -423,6 +423,20 @@ def _dele_quit(n, m, rset, end, op, e, when):
     st, _ = _do(h, cl, "STAT")
     reached()
     check(int(st.split()[1]) == 3 - len(marked), "C20/dele_quit/stat_count_differs_from_marks", out=repr(st), marked=sorted(marked))
+    # the multi-line listings keep the session's numbering: exactly the unmarked messages, under their own numbers
+    unmarked = [k for k in (1, 2, 3) if k not in marked]
+    for word in ("LIST", "UIDL"):
+        out, _ = _do(h, cl, word)
+        first, _, rest = out.partition(b"\r\n")
+        payload, why = unstuff(rest)
+        check(first.startswith(b"+OK") and payload is not None, f"C20/dele_quit/multiline_reply_malformed", cmd=word, why=why, out=repr(out[:80]))
+        rows = [ln.split() for ln in payload.decode().split("\r\n") if ln]
+        check([int(r[0]) for r in rows] == unmarked, "C20/dele_quit/listing_numbers_differ_from_unmarked_messages", cmd=word, got=[r[0] for r in rows], expected=unmarked, marked=sorted(marked))
+        for r in rows:
+            one, _ = _do(h, cl, f"{word} {int(r[0])}")
+            check(one.split()[1:3] == [r[0].encode(), r[1].encode()], "C20/dele_quit/listing_row_differs_from_single_message_reply", cmd=word, row=r, single=repr(one))
+            if word == "UIDL":
+                check(int(r[1]) == uids[int(r[0]) - 1], "C20/dele_quit/uidl_differs_from_imap_uid", row=r, uids=uids)
     if when == 1:
         gone = _imap_side(mb, op, uids, ebits)
     for k in (1, 2, 3):
